@@ -6,6 +6,7 @@ import (
 	"fmt"
 	"os"
 	"runtime"
+	"runtime/debug"
 	"runtime/pprof"
 	"strings"
 	"time"
@@ -57,7 +58,11 @@ func main() {
 	if args[0] == "check" {
 		maxSec = 3000 // the lemma processes have their own (smaller) budgets
 	}
-	go watchdog(envInt("IKEVERIF_MAXHEAP_MB", 12000), envInt("IKEVERIF_MAXSEC", maxSec))
+	maxHeap := envInt("IKEVERIF_MAXHEAP_MB", 12000)
+	// soft limit well below the budget: the collector works harder before the heap gets
+	// near it, so that garbage alone never ends a run
+	debug.SetMemoryLimit(int64(maxHeap) * 2 / 3 << 20)
+	go watchdog(maxHeap, envInt("IKEVERIF_MAXSEC", maxSec))
 	if pf := os.Getenv("IKEVERIF_PROF"); pf != "" {
 		f, _ := os.Create(pf)
 		pprof.StartCPUProfile(f)
@@ -194,6 +199,12 @@ func watchdog(maxMB, maxSec int) {
 		time.Sleep(500 * time.Millisecond)
 		var ms runtime.MemStats
 		runtime.ReadMemStats(&ms)
+		if int(ms.HeapAlloc>>20) > maxMB {
+			// HeapAlloc counts garbage that has not been collected yet: the budget is about
+			// what the run needs, so collect and look again before giving up
+			runtime.GC()
+			runtime.ReadMemStats(&ms)
+		}
 		if int(ms.HeapAlloc>>20) > maxMB || int(time.Since(t0).Seconds()) > maxSec {
 			fmt.Fprintf(os.Stderr, "ikeverif: budget exceeded (heap %d MB, %ds)\n", ms.HeapAlloc>>20, int(time.Since(t0).Seconds()))
 			cleanupScratch()
